@@ -373,7 +373,7 @@ fn body(space: Space) -> impl Fn(&Ch) -> Run + Sync + Send {
     let clobber = w.has_source_phase_clobber();
     let mut outcomes = vec![];
     for kind in kind_all() {
-      for (skip_dynamic, is_dynamic_root, unstable, rich) in [(false, false, true, false), (true, false, true, false), (false, true, false, false), (false, false, true, true)] {
+      for (skip_dynamic, is_dynamic_root, unstable, rich, seeded) in [(false, false, true, false, false), (true, false, true, false, false), (false, true, false, false, false), (false, false, true, true, false), (false, false, true, false, true)] {
         // the rich configuration needs an attribute-less last specifier (the
         // configured import is an attribute-less import of it)
         let n = w.kinds.len();
@@ -399,6 +399,21 @@ fn body(space: Space) -> impl Fn(&Ch) -> Run + Sync + Send {
         };
         let npm = ScriptedNpmResolver::default();
         let mut g = ModuleGraph::new(kind);
+        if seeded {
+          // the lockfile already knows the redirects the build is going to meet
+          let Some(want) = expected_closure(&w, &cfg) else { continue };
+          let pairs: Vec<(String, String)> = (0..n)
+            .filter(|i| w.kinds[*i] == Kind::Redirect && want.contains(&w.spec(*i)))
+            .map(|i| (w.spec(i), w.spec(w.redirect_to[i])))
+            .collect();
+          if pairs.is_empty() {
+            continue; // same as the default configuration
+          }
+          g.fill_from_lockfile(deno_graph::FillFromLockfileOptions {
+            redirects: pairs.iter().map(|(a, b)| (a.as_str(), b.as_str())),
+            package_specifiers: std::iter::empty(),
+          });
+        }
         if build_graph(
           &mut g,
           w.roots(),
@@ -426,7 +441,7 @@ fn body(space: Space) -> impl Fn(&Ch) -> Run + Sync + Send {
           continue;
         }
         run.evals += 1;
-        let case = |extra: Value| json!({"world": w.describe(), "graph_kind": format!("{kind:?}"), "skip_dynamic_deps": skip_dynamic, "is_dynamic": is_dynamic_root, "unstable_text_bytes": unstable, "resolver+npm_resolver+jsr_passthrough+configured_import": rich, "detail": extra});
+        let case = |extra: Value| json!({"world": w.describe(), "graph_kind": format!("{kind:?}"), "skip_dynamic_deps": skip_dynamic, "is_dynamic": is_dynamic_root, "unstable_text_bytes": unstable, "resolver+npm_resolver+jsr_passthrough+configured_import": rich, "redirects_seeded_from_lockfile": seeded, "detail": extra});
         // with the rich configuration the last specifier is also loaded by the
         // configured import and is what "bare-pkg" resolves to
         let clobber_rich = rich
@@ -658,7 +673,7 @@ pub fn prop(tier: Tier) -> Prop {
   };
   Prop {
     id: "C01",
-    rule: "state = world (entry kinds x attribute per target x import edges with form and target x local/remote x x-typescript-types header x 1..2 roots); per world 3 graph kinds x 4 option sets (default; skip_dynamic_deps; dynamic root without unstable text/bytes; resolver + npm resolver + jsr passthrough + configured type import) are built. Oracle: (1) each JS/TS module's recorded dependencies (specifier text -> code target, type target, is_dynamic, attribute, import kinds) equal what reference rules derive from the renderer's record of the statements it wrote; (2) slots + redirect sources = least closure of the roots under the follow rules of the kind/options, computed over the reference dependencies; (3) one load per specifier (asset->module upgrade excepted), every loader redirect recorded; (4) entry kind where the world determines it. Non-trivial = world with an edge of a non-default form.".into(),
+    rule: "state = world (entry kinds x attribute per target x import edges with form and target x local/remote x x-typescript-types header x 1..2 roots); per world 3 graph kinds x 5 option sets (default; skip_dynamic_deps; dynamic root without unstable text/bytes; resolver + npm resolver + jsr passthrough + configured type import; default with the reachable redirects already in the graph through fill_from_lockfile) are built. Oracle: (1) each JS/TS module's recorded dependencies (specifier text -> code target, type target, is_dynamic, attribute, import kinds) equal what reference rules derive from the renderer's record of the statements it wrote; (2) slots + redirect sources = least closure of the roots under the follow rules of the kind/options, computed over the reference dependencies; (3) one load per specifier (asset->module upgrade excepted), every loader redirect recorded; (4) entry kind where the world determines it. Non-trivial = world with an edge of a non-default form.".into(),
     assumptions: vec![
       "the fourth option set has a resolver (bare-specifier map, resolve_types table for untyped modules), an npm resolver, jsr passthrough and one configured type import; the other three use default resolution".into(),
       "same-attribute proviso enforced by the generator (also through redirects, roots, types header, @ts-types pragma); at most one self-types / jsx pragma per module".into(),
